@@ -1,11 +1,13 @@
 SPECIFICATION Spec
 CONSTANTS
   Msgs = {1, 2, 3}
+  NQ = 1
   TL = 2
   ML = 1
   MaxRetries = 1
   Late = FALSE
   Repaired = FALSE
+  BudgetCheck = "after_slot"
   Prefetch = 0
   FinishMode = "taken"
 INVARIANT Conservation
